@@ -3,14 +3,14 @@ package main
 import (
 	"fmt"
 
+	"github.com/golang/geo/s1"
 	"github.com/golang/geo/s2"
-	"github.com/golang/geo/s2/s2intersect"
 )
 
 func main() {
-	P := s2.CellIDFromFace(0)
-	k := P.Children()
-	for _, in := range s2intersect.Find([]s2.CellUnion{{P}, {P}, {k[0], k[1]}, {k[2], k[3]}}) {
-		fmt.Println(in.Indices, in.Intersection, len(in.Intersection))
-	}
+	c := s2.PointFromCoords(0.3, 0.5, -0.8)
+	a := s2.RegularLoop(c, s1.Angle(30*s1.Degree), 40)
+	b := s2.RegularLoop(c, s1.Angle(5*s1.Degree), 40)
+	fmt.Println("A.Contains(B):", a.Contains(b), " B.Contains(A):", b.Contains(a), " A.Intersects(B):", a.Intersects(b))
+	fmt.Println(s2.TurnAngle(s2.PointFromCoords(1, 0, 0), s2.PointFromCoords(1, 0, 1e-300), s2.PointFromCoords(1, 1e-300, -1e-300)), s2.TurnAngle(s2.PointFromCoords(1, 1e-300, -1e-300), s2.PointFromCoords(1, 0, 1e-300), s2.PointFromCoords(1, 0, 0)))
 }
